@@ -750,7 +750,7 @@ theorem tie_encodeBufSite : siteOfFlow encodeBufFlow = some encodeSite := by dec
 /-- the record itself (the returned expression and the declaration it comes from). -/
 theorem tie_encodeBufFlow : encodeBufFlow =
     [("return", "buf.Bytes()"), ("root", "buf"), ("root-scope", "local"), ("decl", "var"), ("type", "bytes.Buffer"),
-     ("defers", "0")] := by decide
+     ("defers", "0"), ("other-returns", "0")] := by decide
 
 /-- `YamlToJson` / `TomlToJson` return what `encodeToJSON` returned (no copy in between, nothing kept). -/
 theorem tie_fwdEncoding :
@@ -1002,5 +1002,12 @@ theorem tie_ccDecisions (n : Int) (b : Bool) :
 theorem tie_ccGetConfig : ccGetConfig =
     ["call c.value()", "if v == nil || len(v.data) == 0", "call len(v.data)", "return empty, errEmptyConfig",
      "return v.marshalData, v.err"] := by decide
+
+/-! ### round 5e: the field info is built afresh by every call -/
+
+/-- `buildStructFieldsInfo` returns the `&fieldInfo{…}` it built itself and nothing else (no early return of a kept object);
+together with `tie_cPkgVars` (package conf keeps no info between calls) the merge of `addOrMergeFields` / `mergeFields`
+writes only into objects of the same call: `loadTreeM` is a function of (type, tree).  Seeded C17-10 breaks both. -/
+theorem tie_structInfoFresh : infoFreshOfFlow structInfoFlow = true := by decide
 
 end GoZero.C17.Tie
